@@ -16,10 +16,16 @@ Failures are values (`.err k`), as in the VM.
   identifiers what `InterpStack::pop` makes of a name when no stored program has it: a type name, then a
               bound parameter, else a Binding failure (`resolveIdent`)
 
-NOT covered (the placeholder `notCovered` is returned; `InFragment` excludes these trees, and the
-compiler-correctness theorem `C05Compile.compile_correct_partial` is stated for `InFragment` only):
-`match`, map literals, f-strings, and every postfix chain (member access `.f`, index `[i]`, calls and
-macros `f(..)`) — hence also no call log: nothing in the fragment can call a bound function.
+  match s { case p₁: e₁ … }   the patterns are tried in order against the value of `s`; the arm of the
+              first case whose pattern yields `true` is the result (no other arm plays a role); `null` when
+              none does.  `_` always matches; a comparison pattern `op e` yields `s op e` (a failing
+              comparison does not match).
+
+NOT covered (the placeholder `notCovered` is returned; `Frag` excludes these trees, and the
+compiler-correctness theorems of `C05Compile` are stated for `Frag` only): type patterns of `match`
+(`case int:` — they are compiled to a call of `type()`), map literals, f-strings, and every postfix chain
+(member access `.f`, index `[i]`, calls and macros `f(..)`) — hence also no call log: nothing in the
+fragment can call a bound function.
 -/
 namespace Rscel
 
@@ -46,6 +52,11 @@ def negCount (ops : List Span) : Ast → Nat
 /-- Placeholder for the constructors `evalSpec` does not define (see the header). -/
 def notCovered : Val := .err .internal
 
+/-- The comparison a `match` pattern `op e` applies to the scrutinee. -/
+def CmpOp.apply : CmpOp → Val → Val → Val
+  | .eq => valEq | .neq => valNe
+  | .gt => rel .gt | .ge => rel .ge | .lt => rel .lt | .le => rel .le
+
 mutual
 def evalSpec : Ast → Env → Val
   | .tern _ c t f, env =>
@@ -65,7 +76,21 @@ def evalSpec : Ast → Env → Val
   | .negRun _ ops m, env => applyN neg (negCount ops m) (evalSpec m env)
   | .member _ p [], env => evalSpecPrim p env
   | .member _ _ (_ :: _), _ => notCovered
-  | .match_ _ _ _, _ => notCovered
+  | .match_ _ s cases, env => evalSpecCases cases (evalSpec s env) env
+
+/-- The cases of a `match` against the scrutinee value `vs`, in order. -/
+def evalSpecCases : List MCase → Val → Env → Val
+  | [], _, _ => .null                                           -- no case matched
+  | .mk _ p b :: rest, vs, env =>
+    (match evalSpecPat p vs env with
+     | .bool true => evalSpec b env                             -- the first matching case: its arm only
+     | _ => evalSpecCases rest vs env)
+
+/-- What a pattern yields on the scrutinee value `vs` (it matches iff this is `true`). -/
+def evalSpecPat : Pat → Val → Env → Val
+  | .any _, _, _ => .bool true
+  | .cmp _ _ op e, vs, env => op.apply vs (evalSpec e env)
+  | .type _ _ _, _, _ => notCovered
 
 def evalSpecPrim : Prim → Env → Val
   | .ident _ n, env => resolveIdent env n
@@ -87,21 +112,32 @@ def evalSpecList : List Ast → Env → List Val
 end
 
 /-- The trees `evalSpec` defines: everything built from literals, identifiers, parentheses, list
-    literals, `!`/`-` runs, all fourteen binary operators and `?:`. -/
-inductive InFragment : Ast → Prop
-  | null (sp sp' : Span) : InFragment (.member sp (.null sp') [])
-  | int (sp sp' : Span) (i : Int) : InFragment (.member sp (.int sp' i) [])
-  | uint (sp sp' : Span) (n : Nat) : InFragment (.member sp (.uint sp' n) [])
-  | float (sp sp' : Span) (b : UInt64) : InFragment (.member sp (.float sp' b) [])
-  | str (sp sp' : Span) (s : Str) : InFragment (.member sp (.str sp' s) [])
-  | bytes (sp sp' : Span) (b : List UInt8) : InFragment (.member sp (.bytes sp' b) [])
-  | bool (sp sp' : Span) (b : Bool) : InFragment (.member sp (.bool sp' b) [])
-  | ident (sp sp' : Span) (n : Str) : InFragment (.member sp (.ident sp' n) [])
-  | parens (sp sp' : Span) (e : Ast) : InFragment e → InFragment (.member sp (.parens sp' e) [])
-  | list (sp sp' : Span) (es : List Ast) : (∀ e ∈ es, InFragment e) → InFragment (.member sp (.list sp' es) [])
-  | notRun (sp : Span) (ops : List Span) (m : Ast) : InFragment m → InFragment (.notRun sp ops m)
-  | negRun (sp : Span) (ops : List Span) (m : Ast) : InFragment m → InFragment (.negRun sp ops m)
-  | bin (sp : Span) (op : BinOp) (l r : Ast) : InFragment l → InFragment r → InFragment (.bin sp op l r)
-  | tern (sp : Span) (c t f : Ast) : InFragment c → InFragment t → InFragment f → InFragment (.tern sp c t f)
+    literals, `!`/`-` runs, all fourteen binary operators, `?:` and — when `m = true` — `match` with `_`
+    and comparison patterns. -/
+inductive Frag (m : Bool) : Ast → Prop
+  | null (sp sp' : Span) : Frag m (.member sp (.null sp') [])
+  | int (sp sp' : Span) (i : Int) : Frag m (.member sp (.int sp' i) [])
+  | uint (sp sp' : Span) (n : Nat) : Frag m (.member sp (.uint sp' n) [])
+  | float (sp sp' : Span) (b : UInt64) : Frag m (.member sp (.float sp' b) [])
+  | str (sp sp' : Span) (s : Str) : Frag m (.member sp (.str sp' s) [])
+  | bytes (sp sp' : Span) (b : List UInt8) : Frag m (.member sp (.bytes sp' b) [])
+  | bool (sp sp' : Span) (b : Bool) : Frag m (.member sp (.bool sp' b) [])
+  | ident (sp sp' : Span) (n : Str) : Frag m (.member sp (.ident sp' n) [])
+  | parens (sp sp' : Span) (e : Ast) : Frag m e → Frag m (.member sp (.parens sp' e) [])
+  | list (sp sp' : Span) (es : List Ast) : (∀ e ∈ es, Frag m e) → Frag m (.member sp (.list sp' es) [])
+  | notRun (sp : Span) (ops : List Span) (x : Ast) : Frag m x → Frag m (.notRun sp ops x)
+  | negRun (sp : Span) (ops : List Span) (x : Ast) : Frag m x → Frag m (.negRun sp ops x)
+  | bin (sp : Span) (op : BinOp) (l r : Ast) : Frag m l → Frag m r → Frag m (.bin sp op l r)
+  | tern (sp : Span) (c t f : Ast) : Frag m c → Frag m t → Frag m f → Frag m (.tern sp c t f)
+  | match_ (sp : Span) (s : Ast) (cases : List MCase) : m = true → Frag m s →
+      (∀ sp' p b, MCase.mk sp' p b ∈ cases → Frag m b) →                             -- every arm
+      (∀ sp' sp1 sp2 op e b, MCase.mk sp' (.cmp sp1 sp2 op e) b ∈ cases → Frag m e) →  -- every comparison pattern
+      (∀ sp' sp1 t name b, MCase.mk sp' (.type sp1 t name) b ∉ cases) →              -- no type pattern
+      Frag m (.match_ sp s cases)
+
+/-- The fragment without `match`. -/
+abbrev InFragment : Ast → Prop := Frag false
+/-- The fragment with `match` (`_` and comparison patterns). -/
+abbrev InFragmentM : Ast → Prop := Frag true
 
 end Rscel
